@@ -126,8 +126,9 @@ def make_harness(op, s, shape, kinds, vname, factory=plain_factory):
             if vname == "typed" and raw and raw[0] and ex.flag("a0_0_wrongtype"):
                 raw[0][0] = BadEq(raw[0][0])      # the very first argument item: never shadowed by an equal earlier one
                 badeq = True
-            args = [build_arg(k, items) for k, items in zip(kinds, raw)]
+            args = [build_arg(k, items) for k, items in zip(kinds, raw)] if kinds != ("self",) else [ts]
         flat = [x for grp in raw for x in grp]
+        self_operand = kinds == ("self",)
         # ---- the operation on the TraitSet ----
         exc_t = None
         ret_t = None
@@ -142,7 +143,7 @@ def make_harness(op, s, shape, kinds, vname, factory=plain_factory):
         ref = set(before)
         if refine:
             try:
-                apply_op(op, ref, args)
+                apply_op(op, ref, [ref] if self_operand else args)      # the set itself as the operand
             except EXC as e:
                 exc_r = type(e).__name__
                 ref = set(before)
@@ -434,6 +435,23 @@ def obligations(tier, build):
                                               bounds={"stored elements s": s, "operand size": shape[0], "operand kind": kind,
                                                       "validator": vname, "container": cont},
                                               leverage="membership / overlap of symbolic elements", **common))
+    for label, fac_ in (("owned-anytrait", owners.set_factory(route="anytrait")), ("owned-added", owners.set_factory(added=True)),
+                        ("owned-added-anytrait", owners.set_factory(route="anytrait", added=True))):
+        for s in (0, 1, 2):
+            for op in OPS1 + OPS0:
+                obs.append(Obligation("%s/%s/s=%d" % (label, op, s), make_harness(op, s, (), (), "ident", factory=fac_),
+                                      bounds={"stored elements s": s, "container": "TraitSetObject; " + label},
+                                      leverage="membership / overlap of symbolic elements", **common))
+            for op in ("update", "ior", "isub", "ixor", "iand", "difference_update"):
+                obs.append(Obligation("%s/%s/s=%d/1/set" % (label, op, s), make_harness(op, s, (1,), ("set",), "ident", factory=fac_),
+                                      bounds={"stored elements s": s, "container": "TraitSetObject; " + label},
+                                      leverage="membership / overlap of symbolic elements", **common))
+    for label, kw_ in (("self-operand", {}), ("owned-self-operand", {"factory": fac})):
+        for s in range(0, SO + 1):
+            for op in OPSN + OPSI + OPSS:
+                obs.append(Obligation("%s/%s/s=%d" % (label, op, s), make_harness(op, s, (0,), ("self",), "ident", **kw_),
+                                      bounds={"stored elements s": s, "operand": "the set itself (s |= s, s -= s, s.update(s), ...)"},
+                                      leverage="membership of symbolic elements", **common))
     falsy = owners.set_factory(falsy=True)
     for op in ("add", "update", "ior"):
         for s in (0, 1):
@@ -451,4 +469,8 @@ def obligations(tier, build):
                                   bounds={"stored elements": s, "copiers": COPIERS, "history before the copy": "none/add/remove"},
                                   leverage="choice feasibility only (copy/pickle are C boundaries, elements concrete)",
                                   stubs=[]))
+    import props._owners as owners_
+    obs.append(Obligation("sharing/set", owners_.sharing_harness("set"),
+                          bounds={"ways of handing a value on": owners_.SHARING_HOWS, "declarations": "x and y from ONE shared definition object"},
+                          leverage="choice feasibility only", stubs=[]))
     return obs
